@@ -13,6 +13,12 @@ CHECKS = {
  "C08": dict(level="model_checking", technique="symbolic execution of the MIR of gm-zuc into z3 queries: integer lemma chain for arithmetic mod 2^31-1, bit-vector queries for the wiring, one-step induction from an arbitrary state",
              text="add31/rot31 lemmas and both LFSR modes ≡ the mathematical feedback for all register states; ZUC::new ≡ spec initialisation for all keys/IVs; from an ARBITRARY generator state every request-size sequence with total <= 4 (thorough 6, incl. zero-length requests) returns the spec words and the spec successor state, independent of stale X; S0/S1/D ground-checked; official vectors through the executor.",
              note="S-boxes and LFSR feedback uninterpreted in the wiring queries (each discharged separately); 31-bit cell invariant; composition beyond the bound by induction argument.", design="§2 C08", engine="mirsmt"),
+ "C11": dict(level="model_checking", technique="layered symbolic execution of the MIR of gm-sm2 into z3: limbs (free partial products), big integers (Montgomery witness), abstract field (group-law case analysis), exponent tracking; ground check of all 8160 table entries",
+             text="u256/u512 limb arithmetic exact; Montgomery multiplication mod p and mod n, fp/fn add/sub/neg/double/triple exact and canonical for all operands; point_add/point_dbl/neg/to_affine/is_valid implement the group law for every Jacobian representation incl. P=Q, P=-Q, infinity; fp_inv/fp_sqrt/fn_pow exponents; every fixed-base table entry equals its multiple of G; constants recomputed.",
+             note="summaries at layer k+1 are the statements proved at layer k; reals as generic field at L3; scalar-multiplication loops (L4) only as listed in evidence.", design="§2 C11", engine="mirsmt"),
+ "C13": dict(level="model_checking", technique="layered symbolic execution of the MIR of gm-sm9 into z3: limbs, Montgomery mod p, Barrett mod N (lemma chain), Booth recoding (bit-vectors), tower formulas over an abstract field, G1/G2 group-law case analysis; ground check of all 2368 table entries",
+             text="Fp/Fp2/Fp4/Fp12 add, sub, mul, sqr, neg, double, triple, halve, inverse (every zero-component branch) equal the tower Fp[w]/(w^12+2); mod-N add/sub/mul exact; Booth digits (w=5,7) recompose every scalar; G1 and G2 add/sub/double/neg/equality/affine/on-curve implement the group law in every Jacobian representation; fixed-base table exhaustive.",
+             note="as C11; G2 formulas over an abstract Fp2; known finding: TwistPoint::point_equals (see known_findings.json).", design="§2 C13", engine="mirsmt"),
  "C16": dict(level="model_checking", technique="symbolic execution of the MIR (integer domain, fresh quotient/remainder encoding, lemma chains) for hash-to-range and mod-N arithmetic; Kani bounded model checking for H1/H2 framing and extraction data-flow",
              text="mod_n_from_hash(Ha) = (Ha mod (N-1))+1 in [1,N-1] for ALL 320-bit Ha; mod_n_add/sub and Barrett mod_n_mul exact for all canonical operands; H1/H2 hash exactly prefix||Z||ct with ct=1,2 and pass the first 40 bytes on; extraction computes [k*(H1(ID||hid)+k)^-1]P with hid 01/03/02 on P1/P2/P2 and fails exactly when H1+k = 0.",
              note="u256/u320 limb arithmetic proved exact once (L1) and used as integer statements; SM3 and the group layer are arbitrary functions in the Kani harnesses; Annex values only in the replay reference.", design="§2 C16", engine="mirsmt+kani"),
